@@ -593,6 +593,8 @@ def gen_case(ctx):
     r = rng.random()
     if r < 0.003 and not ctx.quick:
         L = rng.choice([20000, 20000, 70000])
+    elif r < 0.0045:
+        L = rng.choice([32768, 65536, 65536 + 8, 8192, 32768 + 64])        # lengths at which an in-place / native path could take over
     elif r < 0.55:
         L = rng.choice(util.SHORT_LENGTHS)
     elif r < 0.93:
